@@ -338,7 +338,7 @@ Definition lk : C07.Defs.key := [107; 49]%N.
 Definition lv : list N := [1; 2; 3]%N.
 Ltac fwd H tac :=
   let H' := fresh "H" in
-  eassert (H' : creachable 1000%Z 0%N _); [eapply creach_step; [exact H | tac] | clear H; rename H' into H].
+  eassert (H' : creachable 1000%Z 0%N _); [eapply creach_step; [exact H | tac] | clear H; rename H' into H; vm_compute in H].
 Ltac alone := let u := fresh "u" in let Hu := fresh "Hu" in
   intros u Hu; destruct u as [|[|[|u]]]; try (exfalso; now apply Hu); try split; reflexivity.
 Example lock_model_nonvacuous :
